@@ -19,6 +19,76 @@ EXPLANATION = __doc__
 GE = "sempler.generators."
 RNG = ("ext", "numpy.random.default_rng", (("param", "random_state"),), ())
 Pp = ("param", "p")
+
+
+def shape_of(t):
+    """shape (tuple of terms) of an array term, from the constructors and the elementwise operations this module uses; None when not read"""
+    if not isinstance(t, tuple) or not t:
+        return None
+    if t[0] == "ext" and t[1] in ("numpy.zeros", "numpy.ones", "numpy.empty", "numpy.full") and t[2]:
+        sh = t[2][0]
+        return tuple(sh[1]) if sh[0] == "tuple" else (sh,)
+    if t[0] in ("ext", "method"):
+        kw = dict(t[4] if t[0] == "method" else t[3])
+        if "size" in kw and t[0] == "method" and t[2] in ("uniform", "random", "normal", "integers", "binomial"):
+            sh = kw["size"]
+            if sh[0] == "attr" and sh[2] == "shape":
+                return shape_of(sh[1])
+            return tuple(sh[1]) if sh[0] == "tuple" else (sh,)
+        if t[0] == "ext" and t[1] in ("numpy.triu", "numpy.tril", "numpy.abs", "numpy.zeros_like", "numpy.ones_like", "numpy.array", "numpy.asarray", "numpy.copy") and t[2]:
+            return shape_of(t[2][0])
+        if t[0] == "method" and t[2] in ("astype", "copy") :
+            return shape_of(t[1])
+    if t[0] == "binop" and t[1] in ("*", "+", "-", "/"):
+        a, b = shape_of(t[2]), shape_of(t[3])
+        return a if a is not None and (b is None or a == b) else (b if a is None else None)
+    if t[0] == "cmp" and len(t) == 4:
+        a, b = shape_of(t[2]), shape_of(t[3])
+        return a if a is not None else b
+    return None
+
+
+FULL_SL = ("slice", ("const", None), ("const", None), ("const", None))
+
+
+def scatter_as_block(t, pt):
+    """R = zeros_like(W); R[g[fro], g[to]] = W[fro, to] with (fro, to) = np.where(W != 0) and g = argsort(perm) moves every edge i -> j to
+    g[i] -> g[j]: that is W[perm, :][:, perm] (perm is the inverse of g). -> ("block", term) | ("bad", why) | None (another form)"""
+    if not (isinstance(t, tuple) and t and t[0] == "store" and len(t) >= 4):
+        return None
+    base, idx, val = t[1], t[2], t[3]
+    if not (idx[0] == "tuple" and len(idx[1]) == 2 and val[0] == "sub" and val[2][0] == "tuple" and len(val[2][1]) == 2):
+        return None
+    W = val[1]
+    (gr, gc), (fr, to) = idx[1], val[2][1]
+    if not (gr[0] == "sub" and gc[0] == "sub" and gr[1] == gc[1] and gr[2] == fr and gc[2] == to):
+        return None
+    g = gr[1]
+    if not (fr[0] == "sub" and to[0] == "sub" and fr[1] == to[1] and is_const(fr[2], 0) and is_const(to[2], 1)):
+        return None
+    wh = fr[1]
+    if not (wh[0] == "ext" and wh[1] in ("numpy.where", "numpy.nonzero") and len(wh[2]) == 1 and not wh[3]):
+        return None
+    fresh = (base[0] == "ext" and base[1] == "numpy.zeros_like" and base[2] == (W,) and not base[3]) or \
+        (base[0] == "ext" and base[1] == "numpy.zeros" and len(base[2]) == 1 and not base[3] and base[2][0] in (("attr", W, "shape"), ("tuple", (Pp, Pp))))
+    if not fresh:
+        return None
+    cond = wh[2][0]
+    factors = [W] + ([W[2], W[3]] if W[0] == "binop" and W[1] == "*" else [])
+    nonzero = (cond in factors and wh[1] == "numpy.nonzero") or cond in factors or \
+        (cond[0] == "cmp" and cond[1] == "!=" and is_const(cond[3], 0) and (cond[2] in factors or (cond[2][0] == "ext" and cond[2][1] == "numpy.abs" and cond[2][2][0] in factors)))
+    if not nonzero:
+        if cond[0] == "cmp" and cond[1] in (">", "<", ">=", "<=") and (cond[2] in factors or cond[3] in factors):
+            return ("bad", "only the entries with `%s` are moved to their new position: edges whose weight does not satisfy it are dropped from the graph" % fmt(cond)[:60])
+        return None
+    if g != ("ext", "numpy.argsort", (pt,), ()):
+        return None
+    return ("block", ("sub", ("sub", W, ("tuple", (pt, FULL_SL))), ("tuple", (FULL_SL, pt))))
+
+
+def first_axis(t):
+    sh = shape_of(t)
+    return sh[0] if sh else None
 PP = ("tuple", (Pp, Pp))
 
 
@@ -146,10 +216,17 @@ def special_paths(rep, f, special, pt, mainmat, extra_of):
             rep.unk("PERM.both-paths", fwhere(f, r.node), "fast path under [%s] returns %s: equality with the general path under that condition is not decided" % (cond, fmt(mat)[:60]))
 
 
-def analyse(rep, prog, name, full):
+def analyse(rep, prog, name, full, also=()):
     f = need(prog, GE + name)
-    S = Sym(prog, inline=inline_helpers(prog, "sempler.generators"))
+    S = Sym(prog, inline=inline_helpers(prog, "sempler.generators", also=also))
     run_function(S, f)
+    if not also:
+        # a helper of another module that is handed the permutation (utils.inverse_permutation(permutation), a relabelling helper) is part of the
+        # construction: read through it
+        helpers = {c.target for c in S.select("call", qname=f.qname) if c.callkind == "repo" and not c.target.startswith(GE) and
+                   any(isinstance(x, tuple) and len(x) == 5 and x[0] == "method" and x[2] == "permutation" for a_ in list(c.args) + [v_ for _, v_ in (c.kwargs or {}).items()] for x in walk(a_))}
+        if helpers:
+            return analyse(rep, prog, name, full, also=tuple(sorted(helpers)))
     rets = []
     for r in S.select("return", qname=f.qname):
         v = r.value
@@ -193,12 +270,48 @@ def analyse(rep, prog, name, full):
     for c in S.select("call", qname=f.qname):
         if c.callkind == "method" and c.target == ".permutation":
             perm = c
-    if perm is None or perm.recv != RNG or perm.args != [Pp]:
-        rep.bad("PERM.random", fwhere(f), "no rng.permutation(p) from default_rng(random_state)")
+    if perm is None:
+        other = [c for c in S.select("call", qname=f.qname) if (c.callkind == "method" and c.target in (".shuffle", ".permuted", ".choice", ".random", ".integers")) or
+                 (c.callkind == "ext" and c.target.startswith("numpy.random."))]
+        if other:
+            rep.unk("PERM.random", fwhere(f, other[0].node), "the random relabelling is not drawn with rng.permutation(p); this way of drawing it (%s) is not read" % other[0].target)
+        else:
+            rep.bad("PERM.random", fwhere(f), "no rng.permutation(p) from default_rng(random_state): the nodes are not relabelled at random")
+        return
+    if perm.recv != RNG:
+        rep.bad("PERM.random", fwhere(f, perm.node), "the permutation is drawn from %s, not from default_rng(random_state)" % fmt(perm.recv)[:60])
+        return
+    arg_is_p = perm.args == [Pp] and not perm.kwargs
+    if not arg_is_p and len(perm.args) == 1 and not perm.kwargs:
+        a_ = perm.args[0]
+        rows = None
+        if a_[0] == "ext" and a_[1] == "len" and len(a_[2]) == 1:
+            rows = first_axis(a_[2][0])
+        elif a_[0] == "sub" and a_[1][0] == "attr" and a_[1][2] == "shape" and is_const(a_[2]) and a_[2][1] in (0, 1, -1, -2):
+            sh_ = shape_of(a_[1][1])
+            rows = sh_[a_[2][1]] if sh_ is not None and len(sh_) == 2 else None
+        if rows == Pp:
+            arg_is_p = True
+        elif rows is None:
+            try:
+                d_ = dict(poly(a_))
+            except Exception:
+                d_ = None
+            if d_ is None or not set(d_) <= {(Pp,), ()}:
+                rep.unk("PERM.random", fwhere(f, perm.node), "rng.permutation(%s): whether this is the number of nodes is not read" % fmt(a_)[:60])
+                return
+    if not arg_is_p:
+        rep.bad("PERM.random", fwhere(f, perm.node), "rng.permutation(%s) is not a permutation of the p nodes" % ", ".join(fmt(a_)[:40] for a_ in perm.args))
         return
     rep.ok("PERM.random", fwhere(f, perm.node), "permutation = default_rng(random_state).permutation(p): random, seeded, a bijection of the p nodes")
     pt = perm.result
     special_paths(rep, f, special, pt, mats[0], extra_of)
+    sc = scatter_as_block(mats[0], pt)
+    if sc is not None and sc[0] == "bad":
+        rep.bad("PERM.scatter", fwhere(f, main[0][0].node), sc[1])
+        return
+    if sc is not None:
+        mats = [sc[1]] + mats[1:]
     M = MNF()
     try:
         got = M.nf(mats[0])
@@ -207,23 +320,63 @@ def analyse(rep, prog, name, full):
         return
     blocks = [fct for m in got for fct in m if fct[0] == "B"]
     ok = len(got) == 1 and len(blocks) == 1 and blocks[0][2] == pt and blocks[0][3] == pt and not blocks[0][4]
-    rep.check("PERM.same-axes", ok, fwhere(f, main[0][0].node), "result = W[permutation, :][:, permutation]: the same relabelling on both axes",
-              "rows and columns are not re-indexed with the same permutation: %s" % MN.show(got))
+    if ok:
+        rep.ok("PERM.same-axes", fwhere(f, main[0][0].node), "result = W[permutation, :][:, permutation]: the same relabelling on both axes")
+    elif len(got) == 1 and len(blocks) == 1:
+        rep.bad("PERM.same-axes", fwhere(f, main[0][0].node), "rows and columns are not re-indexed with the same permutation: %s" % MN.show(got))
+    else:
+        # not a re-indexed block of W at all (a scatter into a fresh matrix, a product with a permutation matrix ...): another construction, not read
+        rep.unk("PERM.same-axes", fwhere(f, main[0][0].node), "the result is not written as a block W[rows, :][:, cols] of the upper-triangular matrix: %s" % MN.show(got)[:100])
+        return
     if not ok:
         return
     W = blocks[0][1]
     o = ords[0][0]
+    INT_OK = (("extref", "int"), ("extref", "numpy.intp"), ("extref", "numpy.int64"), ("const", "int"), ("extref", "numpy.int_"))
+
+    def plain(t):
+        # conversions of the permutation that leave it as it is: np.asarray(perm, dtype=int), perm.astype(int), np.array(perm)
+        def rw(x):
+            if isinstance(x, tuple) and x:
+                if x[0] == "ext" and x[1] in ("numpy.asarray", "numpy.array", "numpy.asanyarray") and len(x[2]) == 1 and x[2][0] == pt and \
+                        set(dict(x[3])) <= {"dtype"} and dict(x[3]).get("dtype", INT_OK[0]) in INT_OK:
+                    return pt
+                if x[0] == "method" and x[1] == pt and x[2] == "astype" and len(x[3]) == 1 and x[3][0] in INT_OK:
+                    return pt
+                return tuple(rw(y) for y in x)
+            return x
+        return rw(t)
+
     def inverse_of(o_):
+        """True: the inverse of the permutation; a string: why it is decidedly not; None: not read"""
+        o_ = plain(o_)
         if o_ == ("ext", "numpy.argsort", (pt,), ()):
             return True
+        if o_ == pt:
+            return "the permutation itself, not its inverse (position -> node)"
         # written out: inv = np.empty(len(perm), dtype=int); inv[perm] = np.arange(len(perm))
         n_ = (("ext", "len", (pt,), ()), Pp, ("sub", ("attr", pt, "shape"), ("const", 0)), ("attr", pt, "size"))
-        return o_[0] == "store" and o_[2] == pt and o_[4] is None and o_[1][0] == "ext" and o_[1][1] in ("numpy.empty", "numpy.zeros", "numpy.empty_like", "numpy.zeros_like") and \
-            (o_[1][2][:1] in tuple((x_,) for x_ in n_) or o_[1][2][:1] == (pt,)) and o_[3][0] == "ext" and o_[3][1] in ("numpy.arange", "range") and len(o_[3][2]) == 1 and o_[3][2][0] in n_ and \
-            dict(o_[1][3]).get("dtype", ("extref", "int")) in (("extref", "int"), ("extref", "numpy.intp"), ("extref", "numpy.int64"), ("const", "int")) if o_[1][1] in ("numpy.empty", "numpy.zeros") else \
-            (o_[0] == "store" and o_[2] == pt and o_[4] is None and o_[1][0] == "ext" and o_[1][2][:1] == (pt,) and o_[3][0] == "ext" and o_[3][1] in ("numpy.arange", "range") and len(o_[3][2]) == 1 and o_[3][2][0] in n_)
-    rep.check("PERM.ordering", inverse_of(o), fwhere(f, ords[0][1].node), "ordering = argsort(permutation), the inverse map (position -> node)",
-              "the returned ordering is %s, not argsort(permutation)" % fmt(o)[:80])
+        if o_[0] == "store" and o_[2] == pt and o_[4] is None and o_[1][0] == "ext" and o_[3][0] == "ext" and o_[3][1] in ("numpy.arange", "range") and len(o_[3][2]) == 1 and o_[3][2][0] in n_:
+            b_ = o_[1]
+            if b_[1] in ("numpy.empty", "numpy.zeros") and b_[2][:1] in tuple((x_,) for x_ in n_):
+                dt = dict(b_[3]).get("dtype")
+                if set(dict(b_[3])) <= {"dtype"} and dt in INT_OK:
+                    return True
+                if dt is None:
+                    return "the inverse is written into a float array (np.empty without dtype): the ordering is not an integer index array"
+                if dt[0] == "extref" and dt[1] in ("numpy.byte", "numpy.int8", "numpy.uint8", "numpy.int16", "numpy.uint16", "numpy.bool_", "bool"):
+                    return "the inverse is written into an array of dtype %s: node labels above its range wrap around" % dt[1]
+                return None
+            if b_[1] in ("numpy.empty_like", "numpy.zeros_like") and b_[2][:1] == (pt,) and not dict(b_[3]):
+                return True
+        return None
+    inv = inverse_of(o)
+    if inv is True:
+        rep.ok("PERM.ordering", fwhere(f, ords[0][1].node), "ordering = argsort(permutation), the inverse map (position -> node)")
+    elif isinstance(inv, str):
+        rep.bad("PERM.ordering", fwhere(f, ords[0][1].node), "the returned ordering is %s" % inv)
+    else:
+        rep.unk("PERM.ordering", fwhere(f, ords[0][1].node), "the returned ordering is %s: whether this is argsort(permutation) is not read" % fmt(o)[:80])
     # W = mask * weights
     if not (W[0] == "binop" and W[1] == "*"):
         rep.bad("WEIGHTS.masked", fwhere(f), "weight matrix is not `mask * weights`: %s" % fmt(W)[:80])
